@@ -229,6 +229,41 @@ Theorem C19_context_ignoring_nodes :
 Proof. exact (conj ex_deaf_accepted monitor_rejects_waiting_for_deaf). Qed.
 Print Assumptions C19_context_ignoring_nodes.
 
+(* multi.ClientForAddress.  [scope] is the rule read from the code (the configured clients are lazy
+   wrappers whose address is "" until their client exists); [scoped_nodes] the node lists of the
+   returned client.  "" and an unknown address give the multi client itself ... *)
+Theorem C19_scope_none_identity : forall prim fb initP initF a,
+  a = ANone \/ a = AUnknown ->
+  scoped_nodes prim fb (scope (length prim) (length fb) initP initF a) = (prim, fb).
+Proof. exact scope_none_identity. Qed.
+Print Assumptions C19_scope_none_identity.
+
+(* ... a configured address gives that node alone (a primary keeps all fallbacks, a fallback none),
+   once that node's client exists; before that, the multi client itself. *)
+Theorem C19_scope_address : forall prim fb initP initF,
+  (forall i, (i < length prim)%nat -> nth i initP false = true ->
+     scoped_nodes prim fb (scope (length prim) (length fb) initP initF (AP i)) = ([get prim i], fb)) /\
+  (forall j, (j < length fb)%nat -> nth j initF false = true ->
+     scoped_nodes prim fb (scope (length prim) (length fb) initP initF (AF j)) = ([get fb j], [])) /\
+  (forall i, nth i initP false = false ->
+     scoped_nodes prim fb (scope (length prim) (length fb) initP initF (AP i)) = (prim, fb)) /\
+  (forall j, nth j initF false = false ->
+     scoped_nodes prim fb (scope (length prim) (length fb) initP initF (AF j)) = (prim, fb)).
+Proof. exact scope_address. Qed.
+Print Assumptions C19_scope_address.
+
+(* A call through ClientForAddress("") succeeds iff some configured primary succeeds. *)
+Theorem C19_unscoped_succeeds_iff : forall prim fb initP initF pord ford,
+  order_ok prim pord = true ->
+  let ns := scoped_nodes prim fb (scope (length prim) (length fb) initP initF ANone) in
+  ((exists i a, provide (fst ns) (snd ns) pord ford None = ROk (P i) a) <-> (exists i a, out (get prim i) = Success a)).
+Proof. exact unscoped_succeeds_iff. Qed.
+Print Assumptions C19_unscoped_succeeds_iff.
+
+Theorem C19_scoped_example : check_scoped ex_scoped = 0%nat /\ check_scoped ex_scoped_bad = 1%nat.
+Proof. exact ex_scoped_checked. Qed.
+Print Assumptions C19_scoped_example.
+
 Theorem C19_monitor_rejects :
   monitor (mkc Plain [mkn (Success 101) 5 false; mkn (Success 102) 900 false] [] [0; 1]%nat [] None
                (ROk (P 0) 101) (Some 900) [Done 5; Done 900] []) = false /\
